@@ -108,9 +108,12 @@ def location(project, source, position, filename=None, debug=False):
 
     locs = []
     for r in result:
+        # builtins and compiled modules have no source position to go to
         if isinstance(r, list):
-            locs.append([_loc(n.declared_at, n.filename) for n in r])
-        else:
+            alts = [_loc(n.declared_at, n.filename) for n in r if hasattr(n, 'declared_at')]
+            if alts:
+                locs.append(alts)
+        elif hasattr(r, 'declared_at'):
             locs.append(_loc(r.declared_at, r.filename))
 
     return locs
